@@ -5,8 +5,10 @@
 // context-sensitively (receiver access path + locks held), tracks Lock/RLock/Unlock/RUnlock/defer Unlock, and
 // records every access to a field of a shared object with the locks held there. Output: the de-duplicated
 // table of (location, read|write, lock set) classes as a Coq list, with a side file of example source sites.
-// Abstraction (trusted, see DESIGN.md C09): locations are field paths from the root object (type-level "~T"
-// for objects reached through call results); per-request objects are not shared; interface calls are followed
+// Abstraction (trusted, see DESIGN.md C09): locations are field paths from the root object, the header of a slice field (what len/cap read, written only
+// by assigning the whole slice) apart from its elements (type-level "~T"
+// for objects reached through call results); per-request objects, and objects reached through a local variable
+// initialised from a constructor, Clone or Export call, are not shared; interface calls are followed
 // only for oxy interfaces with stateful implementers; a shared interface-typed value that is written through
 // (Write) or handed to an external function counts as a write of its referent; a call through a function
 // value is analysed against every function literal of identical signature; logger calls are no-ops.
@@ -40,7 +42,7 @@ var (
 	allPkgs  []*packages.Package
 	named    []*types.Named
 	rootType = map[string]bool{"RoundRobin": true, "Rebalancer": true, "CircuitBreaker": true, "TokenLimiter": true,
-		"ConnLimiter": true, "Tracer": true, "Buffer": true, "Stream": true, "StateListener": true, "StickySession": true}
+		"ConnLimiter": true, "Tracer": true, "Buffer": true, "Stream": true, "StateListener": true, "StickySession": true, "RTMetrics": true}
 	configTime  = map[string]bool{"Wrap": true, "Fallback": true, "SetCookieValue": true, "String": true}
 	perRequest  = map[string]bool{"ProxyWriter": true, "BufferWriter": true, "bufferWriter": true, "context": true, "nopWriteCloser": true}
 	followIface = map[string]bool{"Meter": true, "BalancerHandler": true, "SideEffect": true, "CookieValue": true, "SourceExtractor": true, "RateExtractor": true}
@@ -177,13 +179,17 @@ func (e *env) pathOrType(x ast.Expr) string {
 	return ""
 }
 
-func (e *env) record(x *ast.SelectorExpr, kind string) {
+func (e *env) record(x *ast.SelectorExpr, kind string) { e.recordSuffix(x, kind, "") }
+
+// recordSuffix records an access to the field (suffix "") or to the header of a slice-typed field (suffix "#len":
+// what len/cap read and what only an assignment of the whole slice writes; element writes leave it alone).
+func (e *env) recordSuffix(x *ast.SelectorExpr, kind, suffix string) {
 	sel := e.pkg.TypesInfo.Selections[x]
 	if sel == nil || sel.Kind() != types.FieldVal || isMutexType(sel.Type()) {
 		return
 	}
 	base := e.pathOf(x.X)
-	if base == "" {
+	if base == "" || strings.HasPrefix(base, "!") { // unknown, or a fresh object no other goroutine can reach
 		return
 	}
 	locks := map[string]string{}
@@ -191,7 +197,20 @@ func (e *env) record(x *ast.SelectorExpr, kind string) {
 		locks[k] = v
 	}
 	pos := e.pkg.Fset.Position(x.Pos())
-	accesses = append(accesses, access{base + "." + x.Sel.Name, kind, locks, fmt.Sprintf("%s@%s:%d", e.entry, relFile(pos.Filename), pos.Line), e.thread})
+	accesses = append(accesses, access{base + "." + x.Sel.Name + suffix, kind, locks, fmt.Sprintf("%s@%s:%d", e.entry, relFile(pos.Filename), pos.Line), e.thread})
+}
+
+func isSliceField(e *env, x ast.Expr) (*ast.SelectorExpr, bool) {
+	sx, ok := x.(*ast.SelectorExpr)
+	if !ok {
+		return nil, false
+	}
+	sel := e.pkg.TypesInfo.Selections[sx]
+	if sel == nil || sel.Kind() != types.FieldVal {
+		return nil, false
+	}
+	_, isSlice := sel.Type().Underlying().(*types.Slice)
+	return sx, isSlice
 }
 
 // walk an expression for reads (and calls)
@@ -241,15 +260,28 @@ func (e *env) write(x ast.Expr) {
 	switch v := x.(type) {
 	case *ast.SelectorExpr:
 		e.record(v, "W")
+		if sx, ok := isSliceField(e, v); ok {
+			e.recordSuffix(sx, "W", "#len")
+		}
 		e.expr(v.X)
 	case *ast.IndexExpr:
-		e.write(v.X) // element write = write of the container
+		e.writeElems(v.X) // element write = write of the container's elements
 		e.expr(v.Index)
 	case *ast.StarExpr:
 		e.write(v.X)
 	case *ast.ParenExpr:
 		e.write(v.X)
 	}
+}
+
+// writeElems: x[i] = v writes the elements of x; for a slice-typed field that is the field without its header
+func (e *env) writeElems(x ast.Expr) {
+	if sx, ok := isSliceField(e, x); ok {
+		e.record(sx, "W")
+		e.expr(sx.X)
+		return
+	}
+	e.write(x)
 }
 
 func relFile(name string) string {
@@ -304,6 +336,13 @@ func (e *env) call(c *ast.CallExpr) {
 			return
 		}
 	}
+	if id, ok := c.Fun.(*ast.Ident); ok && (id.Name == "len" || id.Name == "cap") && len(c.Args) == 1 {
+		if sx, ok := isSliceField(e, c.Args[0]); ok {
+			e.recordSuffix(sx, "R", "#len")
+			e.expr(sx.X)
+			return
+		}
+	}
 	for _, a := range c.Args {
 		e.expr(a)
 	}
@@ -317,7 +356,7 @@ func (e *env) call(c *ast.CallExpr) {
 			if _, isIface := tv.Type.Underlying().(*types.Interface); !isIface {
 				continue
 			}
-			if p := e.pathOf(a); p != "" {
+			if p := e.pathOf(a); p != "" && !strings.HasPrefix(p, "!") {
 				pos := e.pkg.Fset.Position(a.Pos())
 				locks := map[string]string{}
 				for k, v := range e.held {
@@ -557,6 +596,8 @@ func (e *env) stmt(s ast.Stmt) bool {
 					if obj != nil {
 						if p := e.pathOrType(rhs); p != "" {
 							e.paths[obj] = p
+						} else if isFresh(e, rhs) {
+							e.paths[obj] = "!fresh" // a new object: what is reached through it is not shared
 						} else {
 							delete(e.paths, obj)
 						}
